@@ -252,7 +252,7 @@ class C13(Prop):
         'a mismatch seen on the shared rig is only reported if it reproduces with both deliveries on fresh rigs',
         'client side: responses that never produce a response event in one piece (204/304 with headers, until-close) are trivial',
     )
-    budget = {'quick': (180, 4), 'thorough': (1500, 16)}
+    budget = {'quick': (180, 4), 'thorough': (3000, 16)}
     max_samples = 4
     shrink_lists = {'reqs': 1, 'resps': 1, 'h': 0, 'multi': 0, 'segs': 0, 'q': 0, 'sizes': 0, 'exts': 0, 'trailers': 0, 'fold': 0}
 
